@@ -13,17 +13,22 @@ VARIABLE c
 
 \* number ::= sign? (digits | digits "." digits? | "." digits) exponent?
 Signs == {"", "-", "+"}
-Mantissas == {"int", "dec", "leaddot", "traildot"}
+\* ("huge": whole numbers beyond 32-bit integers; "small": more decimals than the output keeps)
+Mantissas == {"int", "dec", "leaddot", "traildot", "huge", "small"}
 Exponents == {"", "e", "E", "e+", "e-"}
 Numbers == {[sign |-> s, mant |-> m, exp |-> e] : s \in Signs, m \in Mantissas, e \in Exponents}
 \* length ::= number unit?
 Units == {"", "px", "mm", "cm", "in", "pt", "pc", "em", "ex", "%"}
 PlainNumbers == {n \in Numbers : n.exp = "" /\ n.mant \in {"int", "dec"}}
 
-NumCases == {[fam |-> "number", num |-> n, unit |-> u, attr |-> a] :
+\* (single precision: a huge value swallows the small coordinates it is combined with, so huge
+\* numbers are used where the attribute stands alone - sizes and presentation values - and
+\* without exponent)
+NumCases == {x \in {[fam |-> "number", num |-> n, unit |-> u, attr |-> a] :
                 n \in (IF Tier = "quick" THEN {x \in Numbers : x.exp \in {"", "e", "e-"}} ELSE Numbers),
                 u \in (IF Tier = "quick" THEN {"", "px", "mm", "%", "em"} ELSE Units),
-                a \in {"rect-x", "rect-width", "circle-r", "line-x2", "stroke-width", "text-x", "stop-offset", "font-size"}}
+                a \in {"rect-x", "rect-width", "circle-r", "line-x2", "stroke-width", "text-x", "stop-offset", "font-size"}} :
+             x.num.mant = "huge" => x.attr \in {"rect-width", "stroke-width", "font-size", "stop-offset"} /\ x.num.exp = ""}
 
 \* points ::= coordinate-pair (comma-wsp coordinate-pair)*
 PointCases == {[fam |-> "points", n |-> n, pairsep |-> ps, pointsep |-> pt, shape |-> sh, num |-> nm] :
@@ -49,7 +54,8 @@ UseCases == {[fam |-> "use", form |-> f, where |-> w, tkind |-> k, attrs |-> a] 
                 a \in {"xy", "x", "y", "none", "neg"}}
 
 \* element vocabulary: one document per structural snippet (indices into the harness's table)
-VocabCases == {[fam |-> "vocab", snippet |-> i, wrap |-> w] : i \in 1..28, w \in {"svg", "svg-g", "fragment"}}
+\* ("svg-attrs": the author's own attributes on the root - id, class, style, data - are content too)
+VocabCases == {[fam |-> "vocab", snippet |-> i, wrap |-> w] : i \in 1..28, w \in {"svg", "svg-g", "fragment", "svg-attrs"}}
 
 Cases == CASE Family = "number" -> NumCases [] Family = "points" -> PointCases [] Family = "transform" -> TransformCases
            [] Family = "ref" -> RefCases [] Family = "use" -> UseCases [] Family = "vocab" -> VocabCases [] OTHER -> {}
